@@ -574,8 +574,25 @@ func (g *sgen) numberSchema(noNullable bool) (*jsonv.Value, info) {
 
 // ---------------------------------------------------------------- arrays
 
+// GenParamSchema returns a schema fit for a parameter: a non-nullable scalar schema or an array of
+// non-nullable scalars, with the same constraint keywords as the body grammar.
+func GenParamSchema(rng *ev.Rand, opt GenOptions) *jsonv.Value {
+	g := &sgen{rng: rng, opt: opt, comps: map[string]*jsonv.Value{}, infos: map[string]info{}}
+	if rng.Chance(35) {
+		items, ii := g.scalar(true)
+		s, _ := g.arrayOf(items, ii, true)
+		return s
+	}
+	s, _ := g.scalar(true)
+	return s
+}
+
 func (g *sgen) array(d int, noNullable bool) (*jsonv.Value, info) {
 	items, ii := g.schema(d+1, false)
+	return g.arrayOf(items, ii, noNullable)
+}
+
+func (g *sgen) arrayOf(items *jsonv.Value, ii info, noNullable bool) (*jsonv.Value, info) {
 	o := typed("array")
 	o.set("items", items)
 	in := info{class: cArray, distinct: 6, height: ii.height + 1}
